@@ -299,6 +299,143 @@ theorem verdict_cutoff_naive_true (spec : P → I → Outcome V E) (exs : List (
   | ok b => rw [verdict_ok .naive spec exs p b hn, hs]
   | error e => rw [verdict_error .naive spec exs p e hn] at hs; cases hs
 
+/-- once `failed` is set it stays set -/
+theorem naiveLoop_failed_stays (ev : Ev St P I V E) (p : P) (exs : List (I × V)) :
+    ∀ (st : St) (success n' : Nat), (naiveLoop ev p st exs true success).2 = .ok (false, n') → False := by
+  induction exs with
+  | nil => intro st success n' h; simp [naiveLoop] at h
+  | cons ex rest ih =>
+    intro st success n' h
+    unfold naiveLoop at h
+    generalize ev.eval st p ex.1 = r at h
+    obtain ⟨st', out⟩ := r
+    cases out with
+    | raised e => cases h
+    | value v =>
+      simp only at h
+      split at h
+      · exact ih st' (success + 1) n' h
+      · exact ih st' success n' h
+    | skipped =>
+      simp only at h
+      split at h
+      · exact ih st' (success + 1) n' h
+      · exact ih st' success n' h
+
+/-! ### scores -/
+
+theorem naiveLoop_counts (ev : Ev St P I V E) (p : P) (exs : List (I × V)) :
+    ∀ (st : St) (failed : Bool) (success : Nat) (f' : Bool) (n' : Nat),
+      (naiveLoop ev p st exs failed success).2 = .ok (f', n') →
+      success ≤ n' ∧ n' ≤ success + exs.length ∧ (f' = false → n' = success + exs.length) := by
+  induction exs with
+  | nil =>
+    intro st failed success f' n' h
+    simp only [naiveLoop] at h
+    cases h
+    simp
+  | cons ex rest ih =>
+    intro st failed success f' n' h
+    unfold naiveLoop at h
+    generalize ev.eval st p ex.1 = r at h
+    obtain ⟨st', out⟩ := r
+    cases out with
+    | raised e => cases h
+    | value v =>
+      simp only at h
+      split at h
+      · obtain ⟨h1, h2, h3⟩ := ih st' failed (success + 1) f' n' h
+        simp only [List.length_cons]
+        exact ⟨by omega, by omega, fun hf => by have := h3 hf; omega⟩
+      · obtain ⟨h1, h2, h3⟩ := ih st' true success f' n' h
+        refine ⟨h1, by simp only [List.length_cons]; omega, ?_⟩
+        intro hf
+        -- `failed` was set: the flag cannot come back to False
+        exfalso
+        subst hf
+        exact naiveLoop_failed_stays ev p rest st' success n' h
+    | skipped =>
+      simp only at h
+      split at h
+      · obtain ⟨h1, h2, h3⟩ := ih st' failed (success + 1) f' n' h
+        simp only [List.length_cons]
+        exact ⟨by omega, by omega, fun hf => by have := h3 hf; omega⟩
+      · obtain ⟨h1, h2, h3⟩ := ih st' true success f' n' h
+        refine ⟨h1, by simp only [List.length_cons]; omega, ?_⟩
+        intro hf
+        exfalso
+        subst hf
+        exact naiveLoop_failed_stays ev p rest st' success n' h
+
+/-- the score of the naive test is a fraction in [0, 1], equal to 1 when the test accepts -/
+theorem testNaive_score (ev : Ev St P I V E) (exs : List (I × V)) (st : St) (p : P) (b : Bool) (sc : Score)
+    (h : (testNaive ev exs st p).2 = .ok (b, sc)) :
+    0 < sc.den ∧ sc.num ≤ sc.den ∧ (b = true → sc.num = sc.den) := by
+  unfold testNaive at h
+  generalize hr : naiveLoop ev p st exs false 0 = r at h
+  obtain ⟨st', a⟩ := r
+  cases a with
+  | error e => cases h
+  | ok v =>
+    obtain ⟨f', n'⟩ := v
+    have hc := naiveLoop_counts ev p exs st false 0 f' n' (by rw [hr])
+    simp only [Except.ok.injEq, Prod.mk.injEq] at h
+    obtain ⟨hb, hsc⟩ := h
+    subst hsc
+    by_cases hl : exs.length = 0
+    · simp [hl]
+    · simp only [hl, if_false]
+      refine ⟨by omega, by omega, ?_⟩
+      intro hbt
+      have : f' = false := by cases f' <;> simp_all
+      have := hc.2.2 this
+      omega
+
+theorem cutoffLoop_score (ev : Ev St P I V E) (p : P) (total : Nat) (exs : List (I × V)) :
+    ∀ (st : St) (n : Nat) (b : Bool) (sc : Score),
+      (cutoffLoop ev p total st exs n).2 = .ok (b, sc) →
+      (b = true ∧ sc = ⟨1, 1⟩) ∨ (b = false ∧ sc.den = total ∧ n ≤ sc.num ∧ sc.num < n + exs.length) := by
+  induction exs with
+  | nil =>
+    intro st n b sc h
+    simp only [cutoffLoop, Except.ok.injEq, Prod.mk.injEq] at h
+    exact Or.inl ⟨h.1.symm, h.2.symm⟩
+  | cons ex rest ih =>
+    intro st n b sc h
+    unfold cutoffLoop at h
+    generalize ev.eval st p ex.1 = r at h
+    obtain ⟨st', out⟩ := r
+    cases out with
+    | raised e => cases h
+    | value v =>
+      simp only at h
+      split at h
+      · rcases ih st' (n + 1) b sc h with h' | ⟨h1, h2, h3, h4⟩
+        · exact Or.inl h'
+        · exact Or.inr ⟨h1, h2, by omega, by simp only [List.length_cons]; omega⟩
+      · simp only [Except.ok.injEq, Prod.mk.injEq] at h
+        obtain ⟨hb, hsc⟩ := h
+        subst hsc
+        exact Or.inr ⟨hb.symm, rfl, Nat.le_refl _, by simp⟩
+    | skipped =>
+      simp only at h
+      split at h
+      · rcases ih st' (n + 1) b sc h with h' | ⟨h1, h2, h3, h4⟩
+        · exact Or.inl h'
+        · exact Or.inr ⟨h1, h2, by omega, by simp only [List.length_cons]; omega⟩
+      · simp only [Except.ok.injEq, Prod.mk.injEq] at h
+        obtain ⟨hb, hsc⟩ := h
+        subst hsc
+        exact Or.inr ⟨hb.symm, rfl, Nat.le_refl _, by simp⟩
+
+theorem testCutoff_score (ev : Ev St P I V E) (exs : List (I × V)) (st : St) (p : P) (b : Bool) (sc : Score)
+    (h : (testCutoff ev exs st p).2 = .ok (b, sc)) :
+    0 < sc.den ∧ sc.num ≤ sc.den ∧ (b = true → sc.num = sc.den) := by
+  rcases cutoffLoop_score ev p exs.length exs st 0 b sc h with ⟨hb, hsc⟩ | ⟨hb, h2, h3, h4⟩
+  · subst hsc; simp
+  · refine ⟨by omega, by omega, ?_⟩
+    intro hbt; rw [hb] at hbt; cases hbt
+
 end tests
 
 /-! ## Part 2: the generator machine -/
